@@ -24,11 +24,14 @@ Tolerances:
 * mixed units: rv / err within 4·2^-52 relative of the exactly converted value (one multiplication by an
   inexact scale factor in `Quantity.to_value`);
 * trend columns: 16·2^-52 relative against the exact rational `(t - t_min)^l` (one subtraction and l-1 products);
-* likelihood: |ll - ll_ref| <= 1e-9·(1 + |ll_ref|): both numbers come from the same kernel on the same rows and
-  can differ only by the order in which tied rows are summed; the generated problems have cond(B) < 1e8 for which
-  the kernel's own round-off was measured <= 4e-11 relative (DESIGN 4).  A case counts as *sensitive* when the
+* likelihood: |ll - ll_ref| <= 1e-5·(1 + |ll_ref|).  Both numbers come from the same kernel on the same labelled
+  rows; the reference puts tied rows in the order the implementation's merge holds them, so a correct
+  implementation gives identical kernel inputs (difference 0).  The tolerance covers implementations that order tied
+  rows differently: over 200 generated problems with tied epochs the kernel's value changed by at most
+  1.9e-7·(1+|ll|) (99 %: 5.5e-8) when only the order of tied rows was changed (n < k and small errors against wide
+  priors make the Woodbury step ill-conditioned); the tolerance is 50x that.  A case counts as *sensitive* when the
   likelihood of the same rows with the labels left in concatenation order differs from the reference by more than
-  1000x that tolerance.
+  100x the tolerance (1e-3·(1+|ll|)); a run needs >= 100 sensitive cases.
 """
 import math
 from fractions import Fraction
@@ -607,14 +610,27 @@ def run_e2e(ctx, g, rng):
         return np.array(marginal_ln_likelihood_inmem(helper, packed), dtype="f8")
 
     order = np.argsort(cat_t, kind="stable")
+    # put tied rows in the order the implementation's own merge holds them, so that a correct implementation is
+    # compared on identical kernel inputs (the labels of the reference never come from the implementation)
+    try:
+        from thejoker.data_helpers import validate_prepare_data
+        ad_impl = validate_prepare_data(data, p, q)[0]
+        pos = {(bits(a), bits(b), bits(c_)): k for k, (a, b, c_) in enumerate(zip(cat_t, cat_rv, cat_err))}
+        o2 = [pos.get((bits(a), bits(b), bits(c_)), -1)
+              for a, b, c_ in zip(ad_impl._t_bmjd, ad_impl.rv.value, ad_impl.rv_err.value)]
+        if sorted(o2) == list(range(n)) and np.all(np.diff(cat_t[o2]) >= 0):
+            order = np.array(o2)
+            ctx.count("e2e:row-order-matched")
+    except Exception:
+        ctx.count("e2e:row-order-not-matched")
 
     def true_labels(ad):   # from the observations themselves, whatever order RVData put tied rows in
         return [where[(bits(a), bits(b), bits(c_))] for a, b, c_ in zip(ad._t_bmjd, ad.rv.value, ad.rv_err.value)]
 
     ll_ref = reference(order, true_labels)
     ll_cat = reference(order, lambda ad: [int(s) for s in cat_src])   # labels left in concatenation order
-    tol = 1e-9 * (1 + np.abs(ll_ref))
-    sensitive = bool(np.any(np.abs(ll_cat - ll_ref) > 1000 * tol))
+    tol = 1e-5 * (1 + np.abs(ll_ref))
+    sensitive = bool(np.any(np.abs(ll_cat - ll_ref) > 100 * tol))
     if sensitive:
         ctx.count("e2e:sensitive")
     ctx.evaluated(rel, (g["kind"], g["index"]) if sensitive else None,
@@ -653,7 +669,7 @@ def post(ctx):
         "same units": "bit patterns (t, rv, err), equality (ids, constant block)",
         "mixed units": "4*2^-52 relative on rv / err",
         "trend columns": "16*2^-52 relative against exact rationals",
-        "likelihood": "1e-9*(1+|ll|) between two runs of the same kernel on the same rows",
+        "likelihood": "1e-5*(1+|ll|) between two runs of the same kernel on the same labelled rows (tie order matched)",
     }
     c = ctx.counters
     q = 1 if not ctx.thorough else 5
